@@ -67,6 +67,20 @@ theorem c15_active_delete_finishes_partial (c : Cfg) (fs : FileSet) (hd : ¬ Del
       (startup false (run pre fs)).2.docs = .absent ∧ (startup false (run pre fs)).2.sdocs = .absent :=
   activeSuicide_finishes c fs hd h hi pre hp hne
 
+/-- **C15 (deleting an active fraction, documents re-sorted on sealing - the default).**  Full statement for
+`SkipSortDocs = false`, whatever `KeepMetaFile` is: from any state in which the store holds the fraction as active
+(`c15_role_matches_disk` gives `hd` and `h` for every reachable one), after any non-empty prefix of `Active.Suicide`
+the fraction serves nothing and the next start removes its documents. -/
+theorem c15_active_delete_finishes (keep : Bool) (fs : FileSet) (hd : ¬ Del fs)
+    (h : ShapeE fs ∨ ShapeA ⟨false, keep⟩ fs) (pre : List Op) (hp : pre <+: activeSuicideOps) (hne : pre ≠ []) :
+    served false (run pre fs) = .none ∧ (startup false (run pre fs)).1 = .none ∧
+      (startup false (run pre fs)).2.docs = .absent ∧ (startup false (run pre fs)).2.sdocs = .absent := by
+  have hi : fs.index = .absent := by
+    rcases h with h | h
+    · exact h.2.2.1
+    · exact h.2.2.1 rfl
+  exact activeSuicide_finishes ⟨false, keep⟩ fs hd h hi pre hp hne
+
 /-- **Counterexample to the full statement (open finding).**  `SkipSortDocs` + `KeepMetaFile`: a sealed fraction whose
 `.meta` was kept is held as active after a restart; `Active.Suicide` is cut after `.meta` is removed; the next start
 loads `.docs` + `.index` as a sealed fraction and serves every document of the fraction that was being deleted. -/
